@@ -1,22 +1,26 @@
 import WV.Proofs.C10
+import WV.Proofs.C10_L4
 
 /-!
 C10 property theorems.  `run World.init evs = .ok w` quantifies over EVERY schedule `evs` of
-application writes (open/data/close, both sides), `use_connection`s, connection losses (whatever is
-in flight when the writer moves to its next connection is lost: any suffix, data and acks alike),
-transport pauses (also in the middle of the replay loop) and resumes, and single deliveries of
-records and acks; the executable model `WV.C10` is the one the driver runs against the real code.
+application writes (open/data/close, both sides), `use_connection`s (the Connector's `select()` turn,
+which first hands over — oldest first — the records parked on the new connection since its KCM),
+connection losses (whatever is in flight when the writer moves to its next connection is lost: any
+suffix, data and acks alike), transport pauses (also in the middle of the replay loop) and resumes,
+single deliveries of records and acks to `got_record` or to the parked queue of a not yet selected
+connection, and late listener registrations; the executable model `WV.C10` is the one the driver runs against the real code.
 There is no bound on the length of the schedule, the number of generations or the data.
 -/
 namespace WV.Props.C10
-open WV WV.C10 WV.Proofs.C10
+open WV WV.C10 WV.Proofs.C10 WV.Gen
 
 /-- The ARQ invariant (`Proofs.C10.DirInv`, one instance per direction) holds in every reachable
     state: `built` is numbered 0,1,2…; the receiver has dispatched exactly `built[0..high]`;
-    `_outbound_queue` — and, while connected, (in flight) ++ `_queued_unsent` — contains, gap-free
+    `_outbound_queue` — and, while connected, (parked at the receiver) ++ (in flight) ++
+    `_queued_unsent` — contains, gap-free
     from the receiver's watermark up to the newest record, everything the receiver still lacks;
     nothing waits in `_queued_unsent` while disconnected or while connected and unpaused; every ack
-    in flight is at or below the receiver's watermark. -/
+    in flight or parked is at or below the receiver's watermark; a connected side has nothing parked. -/
 theorem inv_reachable (evs : List Event) (w : World) (h : run World.init evs = .ok w) : WInv w :=
   run_inv evs wInv_init h
 
@@ -46,54 +50,69 @@ theorem exactly_once_in_order (evs : List Event) (w : World) (h : run World.init
         rw [← this, D.disp, List.getElem?_take]
         rw [D.disp, List.length_take] at h3
         simp only [show i < (r.high + 1).toNat by omega, ↓reduceIte]
-  exact ⟨key _ _ _ H.1 ba, key _ _ _ H.2 bb⟩
+  exact ⟨key _ _ _ H.1 ba, key _ _ _ H.2.1 bb⟩
 
 /-- Whenever the sender is connected, not paused and nothing it sent is still in flight — i.e. the
-    generation stayed up until its channel drained — the receiver has dispatched everything the
+    generation stayed up until its channel drained, the receiver's Connector having taken its turn
+    (nothing parked) — the receiver has dispatched everything the
     application ever issued (so nothing written while down, or behind a paused replay, is stuck in
     `_queued_unsent`).  Direction A → B. -/
 theorem queued_while_down_delivered (evs : List Event) (w : World) (h : run World.init evs = .ok w)
-    (hc : w.a.conn = true) (hp : w.a.paused = false) (hd : ∀ r, Wire.msg r ∉ w.a.out) :
+    (hc : w.a.conn = true) (hp : w.a.paused = false) (hd : ∀ r, Wire.msg r ∉ w.a.out)
+    (hk : ∀ r, Wire.msg r ∉ w.b.parked) :
     w.b.dispatched.map (·.body) = issued .A evs := by
   have H := inv_reachable evs w h
   have ba := (run_built evs h).1
   simp only [World.init, Side.init, List.map_nil, List.nil_append] at ba
-  rw [drained_all H.1 hc hp (dataOf_eq_nil hd), ba]
+  rw [drained_all H.1 hc hp (dataOf_eq_nil hd) (dataOf_eq_nil hk), ba]
 
 /-- the same for direction B → A: the two directions are independent instances -/
 theorem queued_while_down_delivered_rev (evs : List Event) (w : World) (h : run World.init evs = .ok w)
-    (hc : w.b.conn = true) (hp : w.b.paused = false) (hd : ∀ r, Wire.msg r ∉ w.b.out) :
+    (hc : w.b.conn = true) (hp : w.b.paused = false) (hd : ∀ r, Wire.msg r ∉ w.b.out)
+    (hk : ∀ r, Wire.msg r ∉ w.a.parked) :
     w.a.dispatched.map (·.body) = issued .B evs := by
   have H := inv_reachable evs w h
   have bb := (run_built evs h).2
   simp only [World.init, Side.init, List.map_nil, List.nil_append] at bb
-  rw [drained_all H.2 hc hp (dataOf_eq_nil hd), bb]
+  rw [drained_all H.2.1 hc hp (dataOf_eq_nil hd) (dataOf_eq_nil hk), bb]
 
-/-- …and such a generation always exists: from ANY reachable state, if the sender settles on a
-    connection whose transport does not pause (connects if it is down, is resumed if it is up) and
-    what it has in flight is delivered, the receiver ends up with exactly the issued sequence. -/
+/-- …and such a generation always exists: from ANY reachable state, if the receiver's Connector
+    takes its turn (selects its pending connection, which hands over what is parked, oldest first; or
+    it is already connected), the sender settles on a connection whose transport does not pause
+    (connects if it is down, is resumed if it is up) and what it has in flight is delivered, then the
+    receiver ends up with exactly the issued sequence. -/
 theorem final_generation_delivers_all (evs : List Event) (w : World) (h : run World.init evs = .ok w) :
-    ∃ w1 w2, step w (.A, if w.a.conn then .resume 0 else .use 0) = .ok w1 ∧
+    ∃ w0 w1 w2, step w (.B, if w.b.conn then .resume 0 else .use 0) = .ok w0 ∧
+      step w0 (.A, if w0.a.conn then .resume 0 else .use 0) = .ok w1 ∧
       run w1 (List.replicate w1.a.out.length (.B, .deliver)) = .ok w2 ∧
       w2.b.dispatched.map (·.body) = issued .A evs := by
   have H := inv_reachable evs w h
-  obtain ⟨w1, s1, c1, p1⟩ := settle H
-  have H1 := step_inv H s1
-  obtain ⟨w2, r2, o2, c2, p2⟩ := deliverB_run w1.a.out.length w1 rfl
+  obtain ⟨v0, t0, cb, _, _⟩ := settle (wInv_swap H)
+  have t0' : stepA w.swap (if w.b.conn then .resume 0 else .use 0) = .ok v0 := t0
+  have s0 : step w (.B, if w.b.conn then .resume 0 else .use 0) = .ok v0.swap := by
+    simp only [step, t0']; rfl
+  have H0 := step_inv H s0
+  obtain ⟨w1, s1, c1, p1, b1⟩ := settle H0
+  have H1 := step_inv H0 s1
+  have hb0 : v0.swap.b.parked = [] := H0.2.2.2 cb
+  obtain ⟨w2, r2, o2, c2, p2, k2⟩ := deliverB_run w1.a.out.length w1 rfl (by rw [b1]; exact hb0)
   have H2 := run_inv _ H1 r2
-  refine ⟨w1, w2, s1, r2, ?_⟩
-  rw [drained_all H2.1 (by rw [c2, c1]) (by rw [p2, p1]) (by rw [o2]; rfl)]
-  have b0 := (run_built evs h).1
-  have b1 := (step_built s1).1
-  have b2 := (run_built _ r2).1
-  have e1 : issued .A [((Who.A, if w.a.conn then Act.resume 0 else Act.use 0) : Event)] = [] := by
-    cases w.a.conn <;> rfl
-  have e2 : ∀ n, issued .A (List.replicate n ((Who.B, Act.deliver) : Event)) = [] := by
+  refine ⟨v0.swap, w1, w2, s0, s1, r2, ?_⟩
+  rw [drained_all H2.1 (by rw [c2, c1]) (by rw [p2, p1]) (by rw [o2]; rfl) (by rw [k2]; rfl)]
+  have e0 := (run_built evs h).1
+  have e1 := (step_built s0).1
+  have e2 := (step_built s1).1
+  have e3 := (run_built _ r2).1
+  have i1 : ∀ (c : Bool), issued .A [((Who.B, if c then Act.resume 0 else Act.use 0) : Event)] = [] := by
+    intro c; cases c <;> rfl
+  have i2 : ∀ (c : Bool), issued .A [((Who.A, if c then Act.resume 0 else Act.use 0) : Event)] = [] := by
+    intro c; cases c <;> rfl
+  have i3 : ∀ n, issued .A (List.replicate n ((Who.B, Act.deliver) : Event)) = [] := by
     intro n; induction n with
     | zero => rfl
     | succ n ih => simpa [List.replicate_succ, issued] using ih
-  simp only [World.init, Side.init, List.map_nil, List.nil_append] at b0
-  rw [b2, b1, b0, e1, e2]; simp
+  simp only [World.init, Side.init, List.map_nil, List.nil_append] at e0
+  rw [e3, e2, e1, e0, i1, i2, i3]; simp
 
 /-- No internal failure: from a reachable state every event the environment can produce is
     accepted — in particular `assert not self._queued_unsent` in `use_connection` never fires. -/
@@ -112,8 +131,111 @@ theorem skeleton_agrees :
     Gen.Skel.skeleton "Outbound.send_if_connected" = skel_send_if_connected ∧
     Gen.Skel.skeleton "Outbound.use_connection" = skel_use_connection ∧
     Gen.Skel.skeleton "Outbound.stop_using_connection" = skel_stop_using_connection ∧
-    Gen.Skel.skeleton "Outbound.resumeProducing" = skel_resumeProducing := by
+    Gen.Skel.skeleton "Outbound.resumeProducing" = skel_resumeProducing ∧
+    Gen.Skel.skeleton "DilatedConnectionProtocol.process_inbound_queue" = skel_process_inbound_queue ∧
+    Gen.Skel.skeleton "SubChannel._deliver_queued_data" = skel_deliver_queued_data ∧
+    Gen.Skel.skeleton "Inbound.handle_open" = skel_handle_open := by
   decide +kernel
+
+/-- Two structural facts the model relies on, read from the source by the translator: the records
+    parked on a not yet selected connection are appended at the back and handed to `got_record` from
+    the front (`processInboundQueue` is oldest-first), and a SubChannel's pending data / pending
+    close are per-instance attributes initialised from fresh literals (`Sub.pendData` belongs to
+    one subchannel). -/
+theorem structure_agrees :
+    Gen.Flags.dcp_parked_queue_fifo = true ∧ Gen.Flags.subchannel_pending_per_instance = true := by
+  decide
+
+/-! ### above the ARQ: subchannels and late listeners (per-step theorems) -/
+
+/-- Pending data is per subchannel: dispatching a record changes neither what has been shown nor what
+    is queued for any subchannel other than the one the record names. -/
+theorem dispatch_touches_only_its_subchannel (t : L4) (r : Rec) (c' : Nat) (h : bodyScid r.body ≠ c') :
+    findSub c' (l4Dispatch t r).subs = findSub c' t.subs :=
+  l4Dispatch_isolated t r c' h
+
+/-- Registering a listener touches only subchannels that are pending for that subprotocol name. -/
+theorem listen_touches_only_pending_of_that_name (t : L4) (name : Bytes) (c' : Nat)
+    (h : ∀ p ∈ t.pendOpens, p.1 = name → p.2 ≠ c') :
+    findSub c' (l4Listen t name).subs = findSub c' t.subs :=
+  l4Listen_isolated t name c' h
+
+/-- Late registration delivers to a pending subchannel's new protocol: `made`, then exactly the
+    data queued on THAT subchannel, oldest first, then the queued close; its queue is empty afterwards. -/
+theorem late_listener_gets_own_queue_in_order (s : Sub) (hs : s.st = .unconnected) :
+    ∃ s', connectSub s = some s' ∧
+      s'.shown = s.shown ++ [.made] ++ s.pendData.map .data ++ (if s.pendClose then [.rclosed] else []) ∧
+      s'.pendData = [] ∧ s'.pendClose = false ∧
+      s'.st = (if s.pendClose then .read_closed else .open_half) :=
+  connectSub_spec s hs
+
+/-- `subTotal` = what a subchannel's protocol has been told followed by what it will be told once it
+    exists.  DATA / CLOSE for a subchannel the peer has not closed append exactly one event to it,
+    whether or not the application is listening yet; getting the protocol late does not change it. -/
+theorem queued_or_shown_exactly_once (s : Sub) (d : Bytes)
+    (hs : s.st = .open_half ∨ (s.st = .unconnected ∧ s.pendClose = false)) :
+    (∃ s', subInput s .remote_data d = some s' ∧ subTotal s' = subTotal s ++ [AppEv.data d]) ∧
+    (∃ s', subInput s .remote_close [] = some s' ∧ subTotal s' = subTotal s ++ [AppEv.rclosed]) ∧
+    (s.st = .unconnected → ∃ s', connectSub s = some s' ∧ subTotal s' = subTotal s) :=
+  ⟨remote_data_total s d hs, remote_close_total s hs, fun h => connectSub_total s h⟩
+
+/-! The full statement above the ARQ, of which the four theorems above are the per-step parts. -/
+
+/-- inputs of the receiving side's L4: a dispatched record, or a listener registration -/
+inductive L4In where
+  | disp (r : Rec)
+  | listen (name : Bytes)
+
+def l4Run : L4 → List L4In → L4
+  | t, [] => t
+  | t, .disp r :: rest => l4Run (l4Dispatch t r) rest
+  | t, .listen n :: rest => l4Run (l4Listen t n) rest
+
+def dispatchedOf : List L4In → List Rec
+  | [] => []
+  | .disp r :: rest => r :: dispatchedOf rest
+  | .listen _ :: rest => dispatchedOf rest
+
+/-- the events the records naming subchannel `c` stand for -/
+def expect (c : Nat) : List Rec → List AppEv
+  | [] => []
+  | r :: rs =>
+    match r.body with
+    | .opn c' _ => if c' = c then .made :: expect c rs else expect c rs
+    | .data c' d => if c' = c then .data d :: expect c rs else expect c rs
+    | .close c' => if c' = c then .rclosed :: expect c rs else expect c rs
+
+/-- a well-behaved sender: every scid is opened once, written to only after its open and before its close -/
+def wellFormed : List Nat → List Nat → List Rec → Bool
+  | _, _, [] => true
+  | opened, closed, r :: rs =>
+    match r.body with
+    | .opn c _ => !opened.contains c && wellFormed (c :: opened) closed rs
+    | .data c _ => opened.contains c && !closed.contains c && wellFormed opened closed rs
+    | .close c => opened.contains c && !closed.contains c && wellFormed opened (c :: closed) rs
+
+/-- For a well-formed dispatched stream and any interleaving of listener registrations (each name at
+    most once) nothing raises `NoTransition`, and for every subchannel `subTotal` is the image of the
+    dispatched records that name it.  NOT proved as one induction here (`…_partial` above are its
+    per-step parts): the composition needs the consistency invariant between `pendOpens`,
+    `factories` and the subchannel states; it is covered by the correspondence runs and by the
+    per-subchannel oracle on the real code, and C13 proves open/close exactly-once for the full
+    SubChannel machine. -/
+def l4_full_statement : Prop :=
+  ∀ (ins : List L4In), wellFormed [] [] (dispatchedOf ins) = true →
+    (l4Run L4.init ins).fault = false ∧
+    ∀ c s, findSub c (l4Run L4.init ins).subs = some s → subTotal s = expect c (dispatchedOf ins)
+
+/-- the full statement on a concrete late-listener run: two subchannels of one name with queued data
+    and a queued close, listener registered afterwards -/
+def l4Demo : List L4In :=
+  [.disp ⟨0, .opn 1 [97]⟩, .disp ⟨1, .opn 3 [97]⟩, .disp ⟨2, .data 1 [1]⟩, .disp ⟨3, .data 3 [2]⟩,
+   .disp ⟨4, .data 1 [3]⟩, .disp ⟨5, .close 3⟩, .listen [97], .disp ⟨6, .data 1 [4]⟩]
+
+example : wellFormed [] [] (dispatchedOf l4Demo) = true ∧ (l4Run L4.init l4Demo).fault = false ∧
+    ((findSub 1 (l4Run L4.init l4Demo).subs).map (·.shown)) = some (expect 1 (dispatchedOf l4Demo)) ∧
+    ((findSub 3 (l4Run L4.init l4Demo).subs).map (·.shown)) = some (expect 3 (dispatchedOf l4Demo)) := by
+  decide
 
 /-! ### the hypotheses are met by concrete, non-trivial schedules -/
 
@@ -137,6 +259,21 @@ example : demoEnd.b.dispatched.map (·.body) = issued .A demo :=
   queued_while_down_delivered demo demoEnd rfl (by decide) (by decide)
     (by intro r; have : demoEnd.a.out = [] := by decide
         rw [this]; simp)
+    (by intro r; have : demoEnd.b.parked = [] := by decide
+        rw [this]; simp)
+
+/-- a burst parked behind the KCM: three records written while down reach the follower's new
+    connection before its Connector's turn, `use` hands them over oldest first -/
+def demoPark : List Event :=
+  [(.A, .write (.opn 1 [97])), (.A, .write (.data 1 [1])), (.A, .write (.data 1 [2])), (.A, .use 0),
+   (.B, .park), (.B, .park), (.B, .park), (.B, .use 0), (.B, .listen [97])]
+
+def demoParkEnd : World := match run World.init demoPark with | .ok w => w | .error _ => World.init
+
+example : run World.init demoPark = .ok demoParkEnd ∧ demoParkEnd.b.dispatched.length = 3 ∧
+    demoParkEnd.b.parked = [] ∧ demoParkEnd.b.high = 2 ∧
+    (demoParkEnd.b.l4.subs.map (·.shown)) = [[.made, .data [1], .data [2]]] :=
+  ⟨rfl, by decide⟩
 
 /-- a reachable state in the middle of a paused replay: `_queued_unsent` non-empty, the receiver
     already has record 0, whose duplicate is the next thing in flight -/
